@@ -30,7 +30,7 @@ from pysmt.exceptions import UnknownSmtLibCommandError, PysmtSyntaxError
 from pysmt.exceptions import PysmtTypeError
 from pysmt.smtlib.script import SmtLibCommand, SmtLibScript
 from pysmt.smtlib.annotations import Annotations
-from pysmt.utils import interactive_char_iterator, assert_not_none
+from pysmt.utils import interactive_char_iterator, assert_not_none, smtlib_string_value
 from pysmt.constants import Fraction
 from pysmt.typing import PartialType, PySMTType, _TypeDecl, _ArrayType
 from pysmt.substituter import FunctionInterpretation
@@ -720,9 +720,7 @@ class SmtLibParser(object):
                 res = mgr.BV(value, width)
             elif token[0] == '"':
                 # String constant
-                val = token[1:-1]
-                val = val.replace('""', '"')
-                res = mgr.String(val)
+                res = mgr.String(smtlib_string_value(token[1:-1]))
             else:
                 # it could be a number or a string
                 try:
